@@ -115,7 +115,7 @@ Proof.
   unfold spaced_parse. destruct (sp_loop s [] 0 0) as [[[rune len] sp]|e|t'] eqn:E; cbn [bind].
   - destruct (len <=? N.size sp); [discriminate|].
     destruct (parse rune) as [n|e|t'] eqn:P; cbn [bind]; try discriminate.
-    exfalso. exact (parse_loop_total _ _ _ _ P).
+    exfalso. exact (parse_total _ _ P).
   - discriminate.
   - exfalso. exact (sp_loop_total _ _ _ _ _ E).
 Qed.
